@@ -314,7 +314,7 @@ func init() {
 			v5, b5 := chainMods(5, purposeCS)
 			return map[string]int{"violations_len3": len(v), "benign_len3": len(b), "violations_len5": len(v5), "benign_len5": len(b5)}
 		},
-		BudgetS: [2]int{150, 1500},
+		BudgetS: [2]int{150, 2700},
 	})
 	register(&mc.Check{
 		ID: "C14", Title: "Timestamping chain validation accepts exactly the conforming TSA chains", DesignRef: "DESIGN.md §4 C14",
@@ -328,6 +328,6 @@ func init() {
 			v, b := chainMods(3, purposeTS)
 			return map[string]int{"violations_len3": len(v), "benign_len3": len(b), "eku_subsets_x_criticality": 32}
 		},
-		BudgetS: [2]int{150, 1500},
+		BudgetS: [2]int{150, 2700},
 	})
 }
